@@ -31,6 +31,38 @@ def check_case(case):
         for c in spec["comps"]:
             if c["n"] == "S":
                 c["a"]["vo"] = 0.0
+    elif fam == "muxrail":
+        # a mux attached by RAIL names; then its first input is replaced by a 0 V source WITHOUT rail and the old rail name is handed to a live
+        # component that does not feed the mux: the mux must follow its input (dead whenever the other input is dead), not the rail name
+        import copy
+        from ..sysmodel import build, observe, make_comp
+        from ..common import quiet_call
+        spec = mux_spec([("S", "live"), ("SH", "inact-reg")], case["pal"], case["rs_list"], rails=True, by_rail=True, below="deep")
+        s = build(spec)
+        if case.get("analyse"):
+            quiet_call(s.solve)
+        s1 = [c for c in spec["comps"] if c["n"] == "S1"][0]
+        s0 = [c for c in spec["comps"] if c["n"] == "S0"][0]
+        old = s1["r"]
+        s1["a"]["vo"], s1["r"] = 0.0, ""
+        s.change_comp("S1", comp=make_comp(s1))
+        s0["r"] = old
+        s.change_comp("S0", comp=make_comp(s0), rail=old)
+        for c in spec["comps"]:
+            c["p"] = ["S1" if q == old else q for q in c["p"]]
+        try:
+            df, _ = quiet_call(s.solve)
+        except Exception as e:
+            res.v(("C04.muxrail-solve-raises", type(e).__name__), str(e))
+            return res
+        obs = observe(df)
+        dd = resolve(spec)
+        for ph in spec["phases"]:
+            phys.check_phase(res, spec, obs, ph, 25.0, WANT, dd)
+        res.viol = [(("C04.after-rail-handover",) + sig, det) for sig, det in res.viol]
+        res.nontrivial = 1
+        res.classes.add("muxrail")
+        return res
     else:  # mux without a live input, next to a live shared source
         spec = mux_spec([tuple(x) for x in case["inputs"]], case["pal"], case["rs_list"], below="deep", mux_pc=case.get("mux_pc"))
     if case.get("move"):
@@ -136,6 +168,9 @@ def gen_cases(tier):
             for inputs in itertools.product(dead, repeat=k):
                 for rs_list in (False, True):
                     yield dict(fam="mux", inputs=[list(x) for x in inputs], pal=pal, rs_list=rs_list)
+        for rs_list in (False, True):
+            for an in (False, True):
+                yield dict(fam="muxrail", pal=pal, rs_list=rs_list, analyse=an)
         # a SLEEPING multi-input mux: it must draw exactly iis from its selected (first live) input, whichever position that has
         allopts = dead + [("S", "live"), ("SC", "live"), ("SH", "live")]
         for k in (2, 3):
